@@ -468,6 +468,60 @@ theorem matchText_eq (s kw : Txt) (dotall : Bool) (hk : 0 < kw.size) :
     rw [matchTextAt_eq s kw dotall j (by rw [startsAt_eq s kw j (by simp at hlt; omega)]; exact hj)]
     simp
 
+/-! ## the name row with the rest of the header (`string[m.end(1):]`) -/
+
+/-- the captured text and the suffix that starts at its closing quote -/
+def textAfterR (dotall : Bool) (l : List Char) : Option (List Char × List Char) :=
+  match headLen l with
+  | none => none
+  | some h => (textAfter dotall l).map fun w => (w, l.drop (h + 1 + w.length))
+
+theorem slice_to_size (s : Txt) (i : Nat) : slice s i s.size = (s.toList.drop i).toArray := by
+  apply Array.toList_inj.1
+  rw [slice_toList', List.toList_toArray]
+  apply List.take_of_length_le
+  simp
+
+theorem matchTextRestAt_eq (s kw : Txt) (dotall : Bool) (i : Nat) (h : startsAt s kw i = true) :
+    matchTextRestAt s kw dotall i =
+      (textAfterR dotall (s.toList.drop (i + kw.size))).map fun p => (p.1.toArray, p.2.toArray) := by
+  unfold matchTextRestAt textAfterR
+  rw [matchTextAt_eq s kw dotall i h, head_eq s kw i h]
+  generalize i + kw.size = b
+  cases hh : headLen (s.toList.drop b) with
+  | none => rfl
+  | some a =>
+    simp only [Option.map_some]
+    cases textAfter dotall (s.toList.drop b) with
+    | none => rfl
+    | some w =>
+      simp only [Option.map_some, List.size_toArray, Option.some.injEq, Prod.mk.injEq, true_and]
+      rw [slice_to_size, List.drop_drop]
+      congr 2
+      omega
+
+theorem matchTextRest_eq (s kw : Txt) (dotall : Bool) (hk : 0 < kw.size) :
+    matchTextRest s kw dotall =
+      (scanL kw.toList (textAfterR dotall) s.toList).map fun p => (p.1.toArray, p.2.toArray) := by
+  unfold matchTextRest
+  rw [findAll_eq s kw hk]
+  rw [findSome_occs kw.toList s.toList 0 (matchTextRestAt s kw dotall)
+    (fun l => (textAfterR dotall l).map fun p => (p.1.toArray, p.2.toArray))]
+  · generalize s.toList = l
+    induction l with
+    | nil => rfl
+    | cons c cs ih =>
+      simp only [scanL]
+      split
+      · cases textAfterR dotall (List.drop kw.toList.length (c :: cs)) with
+        | none => simpa using ih
+        | some x => rfl
+      · exact ih
+  · intro j hj hlt
+    simp only [Nat.zero_add]
+    rw [matchTextRestAt_eq s kw dotall j (by rw [startsAt_eq s kw j (by simp at hlt; omega)]; exact hj)]
+    simp
+
 /-! ## `re.split(kw ?\[, s)` -/
 
 /-- split at the leftmost non-overlapping occurrences of `a` or `b` (`a` tried first); `sk` = characters of the current
@@ -745,6 +799,11 @@ def needL (o : Option (List Char)) : Except Err (List Char) :=
   | some x => .ok x
   | none => .error .ParsingError
 
+def needLP (o : Option (List Char × List Char)) : Except Err (List Char × List Char) :=
+  match o with
+  | some x => .ok x
+  | none => .error .ParsingError
+
 def readEntryL (isI : Bool) (el : List Char) : Except Err (List String) := do
   if isI then
     let s1 ← needL (scanL "xmin".toList (numAfter true) el)
@@ -762,7 +821,7 @@ def readTierL (tt : List Char) : Except Err RawTier := do
   let d := splitL (kw ++ [' ', '[']) (kw ++ ['[']) 0 tt []
   let hdr := d.headD []
   let els := d.drop 1
-  let name ← needL (scanL "name".toList (textAfter true) hdr)
+  let (name, hdr) ← needLP (scanL "name".toList (textAfterR true) hdr)
   let st ← needL (scanL "xmin".toList (numAfter true) hdr)
   let en ← needL (scanL "xmax".toList (numAfter true) hdr)
   let entries ← els.mapM (readEntryL isI)
@@ -856,16 +915,19 @@ theorem readTierLong_eq (tt : List Char) : readTierLong tt.toArray = readTierL t
     ((if isI = true then "intervals" else "points").toList ++ ['[']) 0 tt [] = d
   have hh : (d.map List.toArray).headD #[] = (d.headD []).toArray := by cases d <;> rfl
   have hd : (d.map List.toArray).drop 1 = (d.drop 1).map List.toArray := by cases d <;> rfl
-  simp only [hh, hd, matchText_eq _ _ _ (show 0 < (lit "name").size by decide),
-    matchNum_eq _ _ _ (show 0 < (lit "xmin").size by decide), matchNum_eq _ _ _ (show 0 < (lit "xmax").size by decide),
-    e1, e2, e3, need_map, mapM_map_toArray _ _ (readEntryLong_eq isI)]
-  cases needL (scanL "name".toList (textAfter true) (d.headD [])) with
-  | error e => rfl
-  | ok a =>
-    cases needL (scanL "xmin".toList (numAfter true) (d.headD [])) with
+  simp only [hh, hd, matchTextRest_eq _ _ _ (show 0 < (lit "name").size by decide), e3, List.toList_toArray,
+    mapM_map_toArray _ _ (readEntryLong_eq isI)]
+  cases scanL "name".toList (textAfterR true) (d.headD []) with
+  | none => rfl
+  | some p =>
+    obtain ⟨a, r⟩ := p
+    simp only [Option.map_some, needP, needLP, bind, Except.bind,
+      matchNum_eq _ _ _ (show 0 < (lit "xmin").size by decide), matchNum_eq _ _ _ (show 0 < (lit "xmax").size by decide),
+      e1, e2, need_map, List.toList_toArray]
+    cases needL (scanL "xmin".toList (numAfter true) r) with
     | error e => rfl
     | ok b =>
-      cases needL (scanL "xmax".toList (numAfter true) (d.headD [])) with
+      cases needL (scanL "xmax".toList (numAfter true) r) with
       | error e => rfl
       | ok c =>
         simp only [Except.map, bind, Except.bind, hu, toStr_toArray']
